@@ -267,6 +267,14 @@ def colossal(big=False):
     """Lattices far beyond what the TLA+ lattice value can be built for here: hundreds of atoms (nominal scales) and,
     in the thorough tier, 65 537 concepts.  Judged by relational clauses on the library's own extents."""
     out = [Table(520, 520, [[i + 1] for i in range(520)], 'colossal-nominal520')]
+    # 1100 two-object extents {2201 + t, 4400 - t}: equal-size extents whose first members are consecutive high
+    # positions while the second members decrease - any error in comparing positions up there reorders them
+    n = 4400
+    rows = [[] for _ in range(n)]
+    for t in range(1100):
+        rows[2200 + t].append(t + 1)
+        rows[n - 1 - t].append(t + 1)
+    out.append(Table(n, 1100, rows, 'colossal-pairs4400'))
     if big:
         out.append(Table(1030, 1030, [[i + 1] for i in range(1030)], 'colossal-nominal1030'))
         rows = [[j for j in range(1, 17) if j != i + 1] for i in range(16)] + [[17]]
